@@ -282,6 +282,44 @@ def rule_disconnect_fields(ctx: Ctx) -> RuleResult:
     return rr
 
 
+def rule_args_snapshot(ctx: Ctx) -> RuleResult:
+    """What connect() stores with a handler is a snapshot of the arguments given at connect time: an immutable
+    tuple built from the caller's iterable.  Storing the caller's own object lets a later mutation (or a one-pass
+    iterator, or a list at connect and an equal tuple at disconnect) change which arguments are delivered / matched."""
+    from ..rules.defuse import DefUse
+
+    p = ctx.p
+    rr = RuleResult("SNAP", "C14.8", "_prepare_user_args returns tuples it built itself from the caller's weak_args / user_args", floor=2)
+    fi = p.func(f"{SIG}._prepare_user_args")
+    du = DefUse(fi)
+    rets = [n for n in du.cfg.nodes if n.kind == "return" and isinstance(n.ast.value, ast.Tuple)]
+    if not rets:
+        raise AnalysisError("_prepare_user_args: the returned pair was not found")
+
+    def fresh_tuple(e, at, depth=0):
+        if depth > 5:
+            return False
+        if isinstance(e, ast.Call) and isinstance(e.func, ast.Name) and e.func.id == "tuple":
+            return True
+        if isinstance(e, ast.Tuple):
+            return True
+        if isinstance(e, ast.BoolOp) and isinstance(e.op, ast.Or):
+            return all(fresh_tuple(v, at, depth + 1) for v in e.values)
+        if isinstance(e, ast.IfExp):
+            return fresh_tuple(e.body, at, depth + 1) and fresh_tuple(e.orelse, at, depth + 1)
+        if isinstance(e, ast.Name):
+            defs = du.reaching(e.id, at)
+            return bool(defs) and all(isinstance(v, ast.AST) and fresh_tuple(v, dn, depth + 1) for v, how, dn in defs)
+        return False
+
+    for r in rets:
+        for i, e in enumerate(r.ast.value.elts):
+            rr.inst(f"returned component {i}", True, {"component": i, "expression": du.text(e, r)[:80]})
+            if not fresh_tuple(e, r):
+                rr.add(finding("SNAP", fi, r.stmt, f"component {i} of the stored arguments (`{du.text(e, r)[:70]}`) can be the caller's own object rather than a tuple built here: mutating or reusing the list passed as user_args changes what the handler receives, an iterator is consumed by the first emit, and disconnect(user_args=(...)) no longer matches a handler connected with an equal list", construct=f"stored arguments component {i} not a fresh tuple"))
+    return rr
+
+
 def run(ctx: Ctx):
     p = ctx.p
     out = [
@@ -291,6 +329,7 @@ def run(ctx: Ctx):
                     description="disconnect / disconnect_by_key cannot raise (modelled origins): disconnecting something unknown does nothing"),
         rule_connect_disconnect(ctx),
         rule_dead_weak(ctx),
+        rule_args_snapshot(ctx),
         rule_emit_total(ctx),
         rule_list_identity(ctx),
         rule_disconnect_fields(ctx),
@@ -302,6 +341,8 @@ from ..mutants import Mut  # noqa: E402
 
 _F = "urwid/signals.py"
 MUTANTS = [
+    Mut("user-args-not-copied", "urwid/signals.py", "Signals._prepare_user_args", "args = tuple(user_args) or ()", "args = user_args or ()", "SNAP|signals.Signals._prepare_user_args"),
+    Mut("twin-user-args-tuple-only", "urwid/signals.py", "Signals._prepare_user_args", "args = tuple(user_args) or ()", "args = tuple(user_args)", twin=True),
     Mut("emit-live-list", _F, "Signals.emit", "in list(handlers):", "in handlers:", "SNAP|signals.Signals.emit"),
     Mut("callback-captures-sender", _F, "Signals.connect", "o = obj_weak()", "o = obj", "CLOS|"),
     Mut("weak-args-stored-strongly", _F, "Signals._prepare_user_args", "tuple(weakref.ref(w_arg, callback) for w_arg in weak_args)", "tuple(weak_args)", "CLOS|"),
